@@ -82,4 +82,40 @@ theorem ppf_shift (c : Rat) (p : Rat × Rat) (q : Rat) : F.ppf (p.1 + c, p.2) q 
 
 end fam
 
+/-! ### small list facts used by the property theorems -/
+
+/-- mean of an element-wise map `x ↦ x − d` -/
+theorem mean_map_sub (d : Rat) (xs : List Rat) (h : xs ≠ []) : mean (xs.map (fun x => x - d)) = mean xs - d := by
+  have : xs.map (fun x => x - d) = xs.map (fun x => x + -d) := by
+    apply List.map_congr_left; intro x _; ring
+  rw [this, mean_shift (-d) xs h]; ring
+
+theorem mean_map_mul_right (r : Rat) (xs : List Rat) : mean (xs.map (fun x => x * r)) = mean xs * r := by
+  have : xs.map (fun x => x * r) = xs.map (fun x => r * x) := by
+    apply List.map_congr_left; intro x _; ring
+  rw [this, mean_scale]; ring
+
+theorem zipWith_shift_right (g : Rat → Rat → Rat) (c : Rat) (hg : ∀ b t, g b (t + c) = g b t + c) :
+    ∀ (bs ts : List Rat), List.zipWith g bs (ts.map (fun x => x + c)) = (List.zipWith g bs ts).map (fun x => x + c)
+  | [], _ => by simp
+  | _ :: _, [] => by simp
+  | b :: bs, t :: ts => by
+      simp only [List.map_cons, List.zipWith_cons_cons, hg, zipWith_shift_right g c hg bs ts]
+
+theorem zipWith_add_sub_cancel : ∀ (x t : List Rat), x.length = t.length →
+    List.zipWith (· - ·) (List.zipWith (· + ·) x t) x = t
+  | [], [], _ => rfl
+  | a :: x, b :: t, h => by
+      have h' : x.length = t.length := by simpa using h
+      simp only [List.zipWith_cons_cons, zipWith_add_sub_cancel x t h']
+      congr 1
+      ring
+  | [], _ :: _, h => by simp at h
+  | _ :: _, [], h => by simp at h
+
+theorem zipWith_sub_self : ∀ (x : List Rat), List.zipWith (· - ·) x x = x.map (fun _ => 0)
+  | [] => rfl
+  | a :: x => by simp only [List.zipWith_cons_cons, List.map_cons, zipWith_sub_self x, sub_self]
+
+
 end Lemmas.C02
